@@ -5,7 +5,7 @@ LOG="${1:-/tmp/seedreg.log}"; : > "$LOG"
 cd "$(dirname $0)/.."
 for d in seeded/C??; do
     id=$(basename $d)
-    for sub in "$d" "$d/round2" "$d/round3" "$d/round4" "$d/round5"; do
+    for sub in "$d" "$d/round2" "$d/round3" "$d/round4" "$d/round5" "$d/round7"; do
         for p in patch.diff patch2.diff; do
             [ -f "$sub/$p" ] || continue
             extra=""
@@ -23,6 +23,7 @@ for d in seeded/C??; do
                 seeded/C18/round4/patch2.diff) extra="C03";;
                 seeded/C04/round5/patch.diff) extra="C03";;
                 seeded/C06/round5/patch2.diff) extra="C13";;
+                seeded/C06/patch.diff) extra="C19";;
                 seeded/C19/round5/patch.diff|seeded/C06/round2/patch2.diff) continue;;  # superseded by fix V
             esac
             res=$(tools/mutlab.sh patch "$(pwd)/$sub/$p" $id $extra 2>&1 | grep -E "^==|PATCH DOES NOT" | cut -c1-260 | tr '\n' ' ')
